@@ -54,7 +54,70 @@ const POOL: &[&str] = &[
     "x.com/p$csp,domain=y.com",
     // a pattern-less rule with several initiator domains (filed once per domain)
     "$csp=d13,domain=y.com|x.com",
+    // csp next to another value-carrying modifier, or twice (see `readings`): at most the csp value
+    // may ever be injected, never the other option's value
+    "||x.com^$csp=d14,redirect-rule=a",
+    "||x.com^$removeparam=q,csp=d15",
+    "||x.com^$csp=d16,csp=d17",
 ];
+
+/// The admissible readings of a rule line, as rule texts for `csp_rule_applies`. A line that
+/// carries csp together with redirect / redirect-rule / removeparam, or csp twice, names more than one
+/// modifier value: the property does not say whether that is a rule at all (the parser refuses it),
+/// so it may count as absent or as a csp rule with one of ITS csp values - nothing else.
+fn readings(rule: &str) -> Vec<Option<String>> {
+    let Some((pat, opts)) = rule.rsplit_once('$') else { return vec![Some(rule.to_string())] };
+    let opts: Vec<&str> = opts.split(',').collect();
+    fn is_csp(o: &str) -> bool {
+        o == "csp" || o.starts_with("csp=")
+    }
+    fn other(o: &str) -> bool {
+        o.starts_with("redirect=") || o.starts_with("redirect-rule=") || o.starts_with("removeparam=")
+    }
+    let n_csp = opts.iter().filter(|o| is_csp(o)).count();
+    if n_csp == 0 || (n_csp == 1 && !opts.iter().any(|o| other(o))) {
+        return vec![Some(rule.to_string())];
+    }
+    let mut out = vec![None];
+    for c in opts.iter().filter(|o| is_csp(o)) {
+        let kept: Vec<&str> = opts.iter().filter(|o| !is_csp(o) && !other(o)).copied().chain(std::iter::once(*c)).collect();
+        out.push(Some(format!("{}${}", pat, kept.join(","))));
+    }
+    out
+}
+
+/// Every combination of readings of the lines of a list.
+fn list_readings(items: &[&str]) -> Vec<Vec<String>> {
+    let mut out: Vec<Vec<String>> = vec![vec![]];
+    for r in items {
+        let alts = readings(r);
+        let mut next = vec![];
+        for base in &out {
+            for a in &alts {
+                let mut v = base.clone();
+                if let Some(t) = a {
+                    v.push(t.clone());
+                }
+                next.push(v);
+            }
+        }
+        out = next;
+    }
+    out
+}
+
+/// The admissible answers for a request: one per combination of readings.
+fn admissible(variants: &[Vec<String>], rq: &Req, tagset: &[String]) -> Vec<Option<std::collections::BTreeSet<String>>> {
+    let mut v: Vec<Option<std::collections::BTreeSet<String>>> = vec![];
+    for list in variants {
+        let hits: Vec<(Option<String>, bool)> = list.iter().filter_map(|r| csp_rule_applies(r, &rq.url, &rq.source, tagset)).collect();
+        let e = vh::oracle::netspec::spec_csp(&rq.req, &hits);
+        if !v.contains(&e) {
+            v.push(e);
+        }
+    }
+    v
+}
 
 fn requests() -> Vec<Req> {
     let mut out = vec![];
@@ -156,6 +219,10 @@ fn csp_rule_applies(rule: &str, url: &str, src: &str, tags: &[String]) -> Option
 
 /// Compares the engine's CSP answer with the set algebra over the independently applicable rules.
 fn check_independent(items: &[&str], reqs: &[Req], l: &mut Local) {
+    let variants = list_readings(items);
+    if variants.len() > 1 {
+        l.unspecified += 1;
+    }
     // two subjects: built without and with optimisation (the csp list is optimised like any other)
     // a third subject: an empty blocker that receives the rules one by one (`Blocker::add_filter`)
     {
@@ -179,12 +246,11 @@ fn check_independent(items: &[&str], reqs: &[Req], l: &mut Local) {
                     if !rq.req.is_supported {
                         continue;
                     }
-                    let hits: Vec<(Option<String>, bool)> = items.iter().filter_map(|r| csp_rule_applies(r, &rq.url, &rq.source, &tagset)).collect();
-                    let exp = vh::oracle::netspec::spec_csp(&rq.req, &hits);
+                    let exp = admissible(&variants, rq, &tagset);
                     let got = vh::util::catch(|| vh::net::csp_set(&b.get_csp_directives(&rq.req)));
                     l.compared += 1;
                     l.transitions += 1;
-                    if got.as_ref().ok() != Some(&exp) {
+                    if !got.as_ref().map(|g| exp.contains(g)).unwrap_or(false) {
                         l.mismatch(vh::Mismatch {
                             sig: "c15.csp.rule-applicability.rules-added-one-by-one".into(),
                             what: format!("rules {:?} added with Blocker::add_filter, tags {:?}, request ({}, {}, {}): option semantics give {:?}, blocker {:?}", items, tagset, rq.url, rq.source, rq.ty, exp, got),
@@ -206,12 +272,11 @@ fn check_independent(items: &[&str], reqs: &[Req], l: &mut Local) {
             if !rq.req.is_supported {
                 continue;
             }
-            let hits: Vec<(Option<String>, bool)> = items.iter().filter_map(|r| csp_rule_applies(r, &rq.url, &rq.source, &tagset)).collect();
-            let exp = vh::oracle::netspec::spec_csp(&rq.req, &hits);
+            let exp = admissible(&variants, rq, &tagset);
             let got = vh::util::catch(|| vh::net::csp_set(&e.get_csp_directives(&rq.req)));
             l.compared += 1;
             l.transitions += 1;
-            if got.as_ref().ok() != Some(&exp) {
+            if !got.as_ref().map(|g| exp.contains(g)).unwrap_or(false) {
                 l.mismatch(vh::Mismatch {
                     sig: format!("c15.csp.rule-applicability{}", if optimize { ".optimised-engine" } else { "" }),
                     what: format!("list {:?} tags {:?} optimize={} request ({}, {}, {}): option semantics give {:?}, engine {:?}", items, tagset, optimize, rq.url, rq.source, rq.ty, exp, got),
